@@ -217,7 +217,8 @@ Qed.
 (* ---------------------------------------------------------------- constant edits cost >= 0 *)
 Lemma leaf_match_cost_nonneg : forall x y, 0 <= leaf_match_cost x y.
 Proof.
-  intros x y. unfold leaf_match_cost. pose proof (lev_nonneg (ltext x) (ltext y)).
+  intros x y. unfold leaf_match_cost. apply leaf_cap_spec. unfold leaf_match_cost_raw.
+  pose proof (lev_nonneg (ltext x) (ltext y)).
   destruct (leaf_zero_cost_adjusted && (lev (ltext x) (ltext y) =? 0) && negb (py_eqb x y)); lia.
 Qed.
 
